@@ -1,4 +1,5 @@
 import GV.Model.Flags
+import GV.Gen.Steps
 /-
 C20 — Command lines are split the way the go command splits them.
 
@@ -338,6 +339,29 @@ theorem garble_flag_rejected : ∀ w ∈ garbleOwn, ∀ v : Tok,
   have e5 : bstr "tiny" = [116, 105, 110, 121] := by decide
   rcases hw' with h | h | h | h | h <;> subst h <;>
     simp [rxGarbleMatch, norm, garbleOwn, rx_alternatives, e1, e2, e3, e4, e5, List.isPrefixOf]
+
+/-- the rejection is applied to EVERY flag token after the command: the loop in `toolexecCmd` is, textually, a plain
+`range` over the flag tokens whose only statement is the match-and-fail (regenerated from main.go on every run; a loop
+that skips positions, as a "value of the previous flag" heuristic would, no longer has this shape) -/
+theorem reject_loop_shape : GV.Gen.rejectLoopShape.toList =
+    "for _, flag := range listFlags { if rxGarbleFlag.MatchString(flag) { return nil, fmt.Errorf(\"garble flags must precede command, like: garble %s build ./pkg\", flag) } }".toList := by
+  rfl
+
+/-- the model of that loop -/
+def rejectsAfterCommand (flags : List Tok) : Bool := flags.any (rxGarbleMatch garbleOwn)
+
+/-- wherever a garble flag stands among the flag tokens - after a boolean flag written with one or two dashes, after a
+`-name=value`, anywhere - the command line is rejected -/
+theorem garble_flag_anywhere_rejected (pre post : List Tok) (w : Tok) (hw : w ∈ garbleOwn) (v : Tok) :
+    rejectsAfterCommand (pre ++ (45 :: w) :: post) = true ∧ rejectsAfterCommand (pre ++ (45 :: 45 :: w) :: post) = true ∧
+    rejectsAfterCommand (pre ++ (45 :: w ++ 61 :: v) :: post) = true ∧ rejectsAfterCommand (pre ++ (45 :: 45 :: w ++ 61 :: v) :: post) = true := by
+  have h := garble_flag_rejected w hw v
+  unfold rejectsAfterCommand
+  refine ⟨?_, ?_, ?_, ?_⟩
+  · exact List.any_eq_true.mpr ⟨_, by simp, h.1⟩
+  · exact List.any_eq_true.mpr ⟨_, by simp, h.2.1⟩
+  · exact List.any_eq_true.mpr ⟨_, by simp, h.2.2.1⟩
+  · exact List.any_eq_true.mpr ⟨_, by simp, h.2.2.2⟩
 
 /-- **and nothing else is**: a rejected token is one of garble's flags, alone or with `=value`; in particular a
 value such as `-tags=my-debug` or `out-tiny` is never rejected -/
